@@ -644,7 +644,7 @@ func c04WatchList(a *An, tf *tableFacts) {
 			// only the closed guard and loop condition may appear
 			for _, c := range v.Cond {
 				for _, l := range c {
-					if l.A.Kind == AkPred && l.A.Callee != nil && a.Ro.isIsClosed(l.A.Callee) {
+					if t, _ := a.Ro.closedLit(l); t {
 						continue
 					}
 					if l.A.Kind == AkOpaque && strings.Contains(l.A.Subj, "next(range(") {
